@@ -79,6 +79,7 @@ func (c *Context) WithPrecision(p uint32) *Context {
 }
 
 // goError converts flags into an error based on c.Traps.
+//
 //gcassert:inline
 func (c *Context) goError(flags Condition) (Condition, error) {
 	if flags == 0 {
@@ -106,6 +107,7 @@ func (c *Context) etiny() int32 {
 // shouldSetAsNaN determines whether setAsNaN should be called, given
 // the provided values, where x is required and y is optional. It is
 // split from setAsNaN to permit inlining of this function.
+//
 //gcassert:inline
 func (c *Context) shouldSetAsNaN(x, y *Decimal) bool {
 	return x.Form == NaNSignaling || x.Form == NaN ||
@@ -1049,6 +1051,12 @@ func (c *Context) Exp(d, x *Decimal) (Condition, error) {
 	tmp2.SetInt64(int64(cp) * 23)
 	// if abs(x) > 23*currentprecision; assert false
 	if tmp1.Cmp(&tmp2) > 0 {
+		// The series below cannot handle such an argument, but the result
+		// need not be out of range (e**23001 is about 1E+9989). Split off a
+		// power of ten instead: e**x = 10**k * e**(x - k*ln(10)).
+		if set, lres, err := c.expLarge(d, x); set {
+			return lres, err
+		}
 		res |= Overflow
 		if x.Sign() < 0 {
 			res = res.negateOverflowFlags()
@@ -1128,6 +1136,86 @@ func (c *Context) Exp(d, x *Decimal) (Condition, error) {
 	nc.Precision = c.Precision
 	res |= nc.round(d, d)
 	return c.inexactResult(res)
+}
+
+// expLarge computes e**x for |x| beyond the reach of Exp's series by reducing
+// the argument with a multiple of ln(10): e**x = 10**k * e**r with k the
+// integer nearest to x/ln(10) and r = x - k*ln(10), |r| < 1.2. It reports
+// false, leaving d alone, when the result is certainly outside the context's
+// exponent range (or the precision is beyond the ln(10) table), in which case
+// the caller's overflow/underflow answer is the right one.
+func (c *Context) expLarge(d, x *Decimal) (bool, Condition, error) {
+	// k = round(x / ln(10)); a handful of digits beyond its integer part do.
+	kc := BaseContext.WithPrecision(uint32(x.NumDigits()+int64(x.Exponent)) + 4)
+	kc.Traps = 0
+	var kd Decimal
+	if _, err := kc.Mul(&kd, x, decimalInvLn10.get(kc.Precision)); err != nil {
+		return false, 0, nil
+	}
+	if _, err := kc.RoundToIntegralValue(&kd, &kd); err != nil {
+		return false, 0, nil
+	}
+	k, err := kd.Int64()
+	if err != nil {
+		return false, 0, nil
+	}
+	// e**r lies in (0.3, 3.4), so the adjusted exponent of the result is k-1
+	// or k. Outside the range (with a margin of one) nothing has to be computed.
+	if k-1 > int64(c.MaxExponent) || k+1 < int64(c.etiny()) {
+		return false, 0, nil
+	}
+
+	// r must be accurate to about 10**-(Precision+3) absolutely, which takes
+	// ln(10) to Precision + len(k) + 3 digits. k*ln(10) and the difference
+	// are computed exactly.
+	p := c.Precision + uint32(kd.NumDigits()) + 4
+	if p > 3000 {
+		return false, 0, nil
+	}
+	exact := BaseContext.WithPrecision(0)
+	exact.Traps = 0
+	var r Decimal
+	if _, err := exact.Mul(&r, &kd, decimalLn10.get(p)); err != nil {
+		return false, 0, nil
+	}
+	if _, err := exact.Sub(&r, x, &r); err != nil {
+		return false, 0, nil
+	}
+	nc := BaseContext.WithPrecision(c.Precision + 3)
+	nc.Traps = 0
+	nc.Rounding = RoundHalfEven
+	var er Decimal
+	if _, err := nc.Exp(&er, &r); err != nil {
+		return false, 0, nil
+	}
+	var res Condition
+	if int64(er.Exponent)+k >= MinExponent {
+		er.Exponent += int32(k)
+		res = c.round(d, &er)
+	} else {
+		// With its guard digits e**r * 10**k would have an exponent below the
+		// package limit. Round to the caller's precision first, while the
+		// exponent is still small; the shifted value then only needs the
+		// context's range applied.
+		wide := *c
+		wide.MaxExponent, wide.MinExponent = MaxExponent, MinExponent
+		var t Decimal // d may be x, which the caller still needs if this gives up
+		res = wide.round(&t, &er)
+		if int64(t.Exponent)+k < MinExponent {
+			if int64(t.Exponent)+t.NumDigits()-1+k < int64(c.etiny()) {
+				// Below the smallest subnormal: it underflows to zero.
+				return false, 0, nil
+			}
+			// In range for the context, but not representable within the
+			// package's exponent limits.
+			res, err := c.goError(SystemUnderflow | Underflow)
+			return true, res, err
+		}
+		t.Exponent += int32(k)
+		res |= c.round(d, &t)
+	}
+	res, err = c.inexactResult(res)
+	return true, res, err
 }
 
 // integerPower sets d = x**y. d and x must not point to the same Decimal.
